@@ -75,6 +75,10 @@ func unitCmd(args []string) {
 	if *eval != "" {
 		e.ExtraEval = strings.Split(*eval, ";")
 	}
+	if kf, err := core.LoadKnownFindings(filepath.Join(verifRoot(), "known_findings.json")); err == nil {
+		e.Known = kf
+		e.CurPkg = *pkg
+	}
 	keys := fs.Args()
 	if len(keys) == 0 {
 		for _, c := range e.ContractList {
